@@ -170,6 +170,7 @@ def extract(repo):
     body = _strip_c_comments(_body(pe, r"void\s+EXPRop__out\s*\([^)]*\)\s*\{"))
     sw = _body(body, r"switch\s*\(\s*oe->op_code\s*\)\s*\{")
     dispatch = []
+    index_paren = []
     for chunk in sw.split("break;"):
         cases = re.findall(r"case\s+(OP_\w+)\s*:", chunk)
         if not cases:
@@ -190,9 +191,15 @@ def extract(repo):
             elif m3:
                 dispatch.append((c, "op1", m3.group(1), False))
             elif c in ("OP_ARRAY_ELEMENT", "OP_SUBCOMPONENT"):
-                want = ("EXPR_out( oe->op1, 1 ); wrap( \"[\" ); EXPR_out( oe->op2, 0 ); " +
-                        ("wrap( \" : \" ); EXPR_out( oe->op3, 0 ); " if c == "OP_SUBCOMPONENT" else "") + "raw( \"]\" );")
-                if re.sub(r"\s+", "", rest) != re.sub(r"\s+", "", want):
+                def shape(a2, a3):
+                    return re.sub(r"\s+", "", "EXPR_out( oe->op1, 1 ); wrap( \"[\" ); EXPR_out( oe->op2, " + a2 + " ); " +
+                                  ("wrap( \" : \" ); EXPR_out( oe->op3, " + a3 + " ); " if c == "OP_SUBCOMPONENT" else "") + "raw( \"]\" );")
+                got = re.sub(r"\s+", "", rest)
+                if got == shape("0", "0"):
+                    index_paren.append(False)
+                elif got == shape("EXPRindex_paren( oe->op2 )", "EXPRindex_paren( oe->op3 )"):
+                    index_paren.append(True)
+                else:
                     raise ValueError(f"EXPRop__out: case {c} changed: {rest!r}")
                 dispatch.append((c, "index", "", False))
             else:
@@ -201,6 +208,14 @@ def extract(repo):
     if not re.search(r"#define\s+EXPRop2_out\(oe,string,paren,pad\)\s*\\\s*\n\s*EXPRop2__out\(oe,string,paren,pad,OP_UNKNOWN\)",
                      open(os.path.join(repo, "src/exppp/pretty_expr.h")).read()):
         raise ValueError("macro EXPRop2_out no longer passes OP_UNKNOWN")
+    if len(index_paren) != 2 or index_paren[0] != index_paren[1]:
+        raise ValueError(f"EXPRop__out: index cases inconsistent: {index_paren}")
+    index_ops = []
+    if index_paren[0]:
+        ib = _strip_c_comments(_body(pe, r"static\s+int\s+EXPRindex_paren\s*\([^)]*\)\s*\{"))
+        index_ops = re.findall(r"case\s+(OP_\w+)\s*:", ib)
+        if not re.search(r"return\s+1\s*;\s*default\s*:\s*return\s+0\s*;", ib) or not index_ops:
+            raise ValueError("EXPRindex_paren: shape changed")
     # binary literal printed from
     mm = re.search(r'case\s+binary_\s*:\s*wrap\(\s*"%%%s"\s*,\s*e->([\w.]+)\s*\)', pe)
     if not mm:
@@ -280,6 +295,8 @@ def extract(repo):
     L.append(f"def realDropsPoint : Bool := {'true' if drops_point else 'false'}")
     L.append("/-- a simple string literal that has to be split is printed as ( 'a' + 'b' ) in operand position (not under +) -/")
     L.append(f"def splitLiteralParen : Bool := {'true' if split_paren else 'false'}")
+    L.append("/-- operators whose expression, as operand of an index qualifier, is printed in parentheses (`EXPRindex_paren`) -/")
+    L.append("def indexParenOps : List String := " + _llist([_lstr(o) for o in index_ops]))
     L.append(f"def nestingIndent : Nat := {nesting}")
     L.append(f"def continuationIndent : Nat := {cont}")
     L.append(f"def defaultLineLength : Nat := {ll}")
